@@ -187,10 +187,15 @@ Inductive c03case :=
    handler sent are still unread and the handler has returned k: the caller must
    then observe an error - its own cancellation (Canceled / DeadlineExceeded) or
    the handler's status - never a success, and no invented message *)
-| CE2EAbort (rk : Z) (k : option hkind) (sent : list Z) (obs : sobs).
+| CE2EAbort (rk : Z) (k : option hkind) (sent : list Z) (obs : sobs)
+(* the model regenerated from the Go source by tools/go2coq and the committed
+   equivalence proof coq/Gen/<Name>Equiv.v, re-checked on this run: status 0 =
+   proved equal to the hand-written model, 1 = proof broken, 2 = untranslatable *)
+| CGen (name : Z) (status : Z).
 
 Definition check (c : c03case) : list nat :=
   match c with
+  | CGen _ status => if Z.eqb status 0 then [] else [1%nat]
   | CConv k obs_from obs_ok obs_ctx =>
       (if st3_eqb (st_obs (fst (g_from_error k))) obs_from && Bool.eqb (snd (g_from_error k)) obs_ok
           && st3_eqb (st_obs (g_from_ctx k)) obs_ctx then [] else [4%nat]) ++
